@@ -6,7 +6,7 @@ From Verif Require Import Base.Lex Pipelined.Model Pipelined.ProofsBuf Pipelined
 Record kinv (s : st) : Prop := {
   ki_last : forall g fb, flushing s = Some (g, fb) ->
             exists sent, last_flog s = (g, fb, sent) /\ (closed s = false -> sent = negb (is_nil fb));
-  ki_tm : tmrun s = true -> flushed_keys s <> []
+  ki_tm : tmrun s = true -> primary s <> []
 }.
 
 Lemma kinv_init : kinv init.
@@ -14,12 +14,12 @@ Proof. constructor; cbn; discriminate. Qed.
 
 Lemma kinv_frame s s' : kinv s ->
   (flushing s' = flushing s \/ flushing s' = None) -> flog s' = flog s ->
-  (closed s' = false -> closed s = false) -> (tmrun s' = true -> tmrun s = true) -> kinv s'.
+  (closed s' = false -> closed s = false) -> (tmrun s' = true -> tmrun s = true) -> primary s' = primary s -> kinv s'.
 Proof.
-  intros [H1 H2] Ef El Ec Et. constructor.
+  intros [H1 H2] Ef El Ec Et Ep. constructor.
   - intros g fb Hf. destruct Ef as [Ef|Ef]; [|congruence]. rewrite Ef in Hf. destruct (H1 g fb Hf) as (sent & A & B).
     exists sent. unfold last_flog in *. rewrite El. split; [exact A|]. intros Hc; apply B, Ec, Hc.
-  - intros Ht. unfold flushed_keys in *. rewrite El. apply H2, Et, Ht.
+  - intros Ht. rewrite Ep. apply H2, Et, Ht.
 Qed.
 
 Lemma last_In {A} (l : list A) d : l <> [] -> In (last l d) l.
@@ -52,13 +52,11 @@ Proof.
   intros H. destruct (complete_frame3 s o) as (F1 & F2 & F3). constructor.
   - intros g fb Hf. rewrite F1 in Hf. destruct (ki_last _ H g fb Hf) as (sent & A & B). exists sent.
     unfold last_flog in *. rewrite F2. split; [exact A|]. intros Hc; apply B, F3, Hc.
-  - unfold flushed_keys. rewrite F2. fold (flushed_keys s). unfold complete. destruct (inflight s) eqn:Ei; [|apply (ki_tm _ H)].
-    cbn [tmrun]. intros Ht. apply Bool.andb_true_iff in Ht as [He Ht].
+  - unfold complete. destruct (inflight s) eqn:Ei; [|apply (ki_tm _ H)].
+    cbn [tmrun primary]. intros Ht. apply Bool.andb_true_iff in Ht as [_ Ht].
     apply Bool.orb_true_iff in Ht as [Ht|Hn]; [apply (ki_tm _ H Ht)|].
-    apply Bool.andb_true_iff in He as [_ Hc]. apply Bool.negb_true_iff in Hc.
-    destruct (flushing s) as [[g fb]|] eqn:Ef; [|discriminate].
-    destruct (ki_last _ H g fb Ef) as (sent & A & B). rewrite (B Hc), Hn in A.
-    eapply sent_last_flushed; [exact A|]. destruct fb; [discriminate|discriminate].
+    destruct (flushing s) as [[g fb]|]; [|discriminate]. apply Bool.andb_true_iff in Hn as [Hn _].
+    apply Bool.negb_true_iff in Hn. destruct (primary s); [discriminate|discriminate].
 Qed.
 
 Lemma kinv_start s : kinv s -> kinv (start_flush s).
@@ -66,33 +64,30 @@ Proof.
   intros H. constructor.
   - cbn [start_flush flushing]. intros g fb [= <- <-]. exists (negb (closed s) && negb (is_nil (mem s))).
     unfold last_flog. cbn [start_flush flog closed]. rewrite last_last. split; [reflexivity|]. intros ->; reflexivity.
-  - rewrite flushed_keys_start. cbn [start_flush tmrun]. intros Ht Hnil. apply app_eq_nil in Hnil as [Hnil _].
-    apply (ki_tm _ H Ht Hnil).
+  - cbn [start_flush tmrun primary]. intros Ht. pose proof (ki_tm _ H Ht) as Hp.
+    destruct (primary s) eqn:Epr; [congruence|]. cbn [is_nil]. rewrite Bool.andb_false_r. discriminate.
 Qed.
 
 Lemma kinv_tm_start s : kinv s -> kinv (tm_start s).
 Proof.
   intros H. unfold tm_start. destruct (inflight s && negb (closed s) && _) eqn:E; [|exact H].
-  apply Bool.andb_true_iff in E as [E Hn]. apply Bool.andb_true_iff in E as [_ Hc]. apply Bool.negb_true_iff in Hc.
-  destruct (flushing s) as [[g fb]|] eqn:Ef; [|discriminate].
-  destruct (ki_last _ H g fb Ef) as (sent & A & B). rewrite (B Hc), Hn in A.
+  apply Bool.andb_true_iff in E as [_ Hn].
+  destruct (flushing s) as [[g fb]|] eqn:Ef; [|discriminate]. apply Bool.andb_true_iff in Hn as [Hn _].
   constructor.
-  - cbn [set_tm flushing]. intros g' fb' Hf. rewrite Ef in Hf. injection Hf as <- <-. exists true. split; [exact A|]. intros _.
-    symmetry; exact Hn.
-  - intros _. change (flushed_keys (set_tm s true (perr s))) with (flushed_keys s).
-    eapply sent_last_flushed; [exact A|]. destruct fb; discriminate.
+  - cbn [set_tm flushing]. intros g' fb' Hf. rewrite Ef in Hf. injection Hf as <- <-. apply (ki_last _ H g fb Ef).
+  - intros _. cbn [set_tm primary]. apply Bool.negb_true_iff in Hn. destruct (primary s); [discriminate|discriminate].
 Qed.
 
 Lemma kinv_flush P s f m wo : kinv s -> kinv (fst (flush P s f m wo)).
 Proof.
   intros H. unfold flush.
-  assert (H0 : kinv (set_cache s None)) by (eapply kinv_frame; [exact H|left; reflexivity|reflexivity|auto|auto]).
+  assert (H0 : kinv (set_cache s None)) by (eapply kinv_frame; [exact H|left; reflexivity|reflexivity|auto|auto|reflexivity]).
   set (s0 := set_cache s None) in *.
   destruct (negb (is_nil (stages s0))); [exact H0|].
   destruct (negb f && negb (need_flush P s0 m)); [exact H0|].
   destruct (flushing s0).
   - unfold wait. set (s1 := complete s0 wo). assert (H1 : kinv s1) by apply kinv_complete, H0.
-    assert (Hc : kinv (clear_flushing s1)) by (eapply kinv_frame; [exact H1|right; reflexivity|reflexivity|auto|auto]).
+    assert (Hc : kinv (clear_flushing s1)) by (eapply kinv_frame; [exact H1|right; reflexivity|reflexivity|auto|auto|reflexivity]).
     destruct (match pending s1 with Some r => r | None => true end); cbn [fst]; [|exact Hc].
     apply kinv_start; exact Hc.
   - cbn [fst]. apply kinv_start; assumption.
@@ -101,29 +96,31 @@ Qed.
 Lemma kinv_step P s o : kinv s -> kinv (fst (step P s o)).
 Proof.
   intros H. destruct o; cbn [step].
-  - destruct (is_nil v); cbn [fst]; [exact H|]. eapply kinv_frame; [exact H|left; reflexivity|reflexivity|auto|auto].
-  - cbn [fst]. eapply kinv_frame; [exact H|left; reflexivity|reflexivity|auto|auto].
+  - destruct (is_nil v); cbn [fst]; [exact H|]. eapply kinv_frame; [exact H|left; reflexivity|reflexivity|auto|auto|reflexivity].
+  - cbn [fst]. eapply kinv_frame; [exact H|left; reflexivity|reflexivity|auto|auto|reflexivity].
   - destruct (get s k); exact H.
   - exact H.
-  - destruct (bget s ks) as [[m c] shr]. cbn [fst]. eapply kinv_frame; [exact H|left; reflexivity|reflexivity|auto|auto].
+  - destruct (bget s ks) as [[m c] shr]. cbn [fst]. eapply kinv_frame; [exact H|left; reflexivity|reflexivity|auto|auto|reflexivity].
   - apply kinv_flush; exact H.
   - cbn [fst]. apply kinv_complete; exact H.
   - unfold flush_wait. destruct (flushing s); [|exact H]. unfold wait; cbn [fst].
-    eapply kinv_frame; [apply (kinv_complete s wo H)|right; reflexivity|reflexivity|auto|auto].
-  - cbn [fst]. eapply kinv_frame; [exact H|left; reflexivity|reflexivity|auto|auto].
+    eapply kinv_frame; [apply (kinv_complete s wo H)|right; reflexivity|reflexivity|auto|auto|reflexivity].
+  - cbn [fst]. eapply kinv_frame; [exact H|left; reflexivity|reflexivity|auto|auto|reflexivity].
   - destruct (stages s), (segstages s); cbn [fst]; try exact H.
-    eapply kinv_frame; [exact H|left; reflexivity|reflexivity|auto|auto].
+    eapply kinv_frame; [exact H|left; reflexivity|reflexivity|auto|auto|reflexivity].
   - destruct (stages s), (segstages s); cbn [fst]; try exact H.
-    eapply kinv_frame; [exact H|left; reflexivity|reflexivity|auto|auto].
+    eapply kinv_frame; [exact H|left; reflexivity|reflexivity|auto|auto|reflexivity].
   - exact H.
   - exact H.
   - cbn [fst]. unfold store_step. destruct (inflight s); [|exact H]. destruct (flushing s) as [[g fb]|]; [|exact H].
-    destruct (nth_error fb (N.to_nat i)) as [[k v]|]; [|exact H].
-    eapply kinv_frame; [exact H|left; reflexivity|reflexivity|auto|auto].
+    destruct (nth_error fb (N.to_nat i)) as [[k v]|]; [|exact H]. destruct (is_cne (fpne s) (k, v)); [exact H|].
+    eapply kinv_frame; [exact H|left; reflexivity|reflexivity|auto|auto|reflexivity].
   - cbn [fst]. unfold complete_exist. destruct (inflight s); [|exact H].
-    eapply kinv_frame; [apply (kinv_complete s false H)|left; reflexivity|reflexivity|auto|auto].
+    eapply kinv_frame; [apply (kinv_complete s false H)|left; reflexivity|reflexivity|auto|auto|reflexivity].
   - cbn [fst]. apply kinv_tm_start; exact H.
-  - cbn [fst]. eapply kinv_frame; [exact H|left; reflexivity|reflexivity|auto|]. cbn. discriminate.
+  - cbn [fst]. eapply kinv_frame; [exact H|left; reflexivity|reflexivity|auto| |reflexivity]. cbn. discriminate.
+  - exact H.
+  - destruct (is_nil v); cbn [fst]; [exact H|]. eapply kinv_frame; [exact H|left; reflexivity|reflexivity|auto|auto|reflexivity].
   - exact H.
 Qed.
 
@@ -164,4 +161,5 @@ Proof.
     destruct (ki_last _ H g fb Ef) as (sent & A & _). rewrite A. exact Hv.
   - destruct (stages s), (segstages s); discriminate.
   - destruct (stages s), (segstages s); discriminate.
+  - destruct (is_nil v0); discriminate.
 Qed.
